@@ -38,6 +38,7 @@ from mashumaro.core.meta.helpers import (
     is_annotated,
     is_final,
     is_generic,
+    is_hashable,
     is_literal,
     is_named_tuple,
     is_new_type,
@@ -673,7 +674,7 @@ def on_named_tuple(instance: Instance, ctx: Context) -> JSONSchema:
         instance.origin_type, get_args(instance.type)
     )[instance.origin_type]
     annotations = {
-        k: resolved.get(v, v)
+        k: resolved.get(v, v) if is_hashable(v) else v
         for k, v in getattr(
             instance.origin_type, "__annotations__", {}
         ).items()
@@ -719,7 +720,7 @@ def on_typed_dict(instance: Instance, ctx: Context) -> JSONObjectSchema:
         instance.origin_type, get_args(instance.type)
     )[instance.origin_type]
     annotations = {
-        k: resolved.get(v, v)
+        k: resolved.get(v, v) if is_hashable(v) else v
         for k, v in instance.origin_type.__annotations__.items()
     }
     all_keys = list(annotations.keys())
